@@ -6,7 +6,7 @@ ENVV = "GOFLAGS=-mod=mod GOPROXY=off GOSUMDB=off GOTOOLCHAIN=local GOWORK=off CG
 
 # id -> (technique, level text, level note, design ref)
 CLAIMED = {
-    "C01": ("SSA schema matching: rejection-sampling table + who-may-consume the raw word + paper lemma",
+    "C01": ("SSA schema matching: rejection-sampling table (power-of-two mask, high/low threshold, Lemire multiply-shift) + who-may-consume the raw word + paper lemma",
             "Static decision that the bounded-draw routine is an instance of a rejection-sampling schema proven uniform for every n and every raw word, that the raw word is 4 fully-read CSPRNG bytes, and that nobody else consumes raw words. Holds for all inputs at once because it is a statement about the code's shape; not a machine-checked proof (schema lemma is on paper).",
             "Trusted: go/ssa model, crypto/rand.Read contract, encoding/binary, the paper lemma. Not decided: compiled code, crypto/rand internals.",
             "DESIGN.md section 3 C01"),
@@ -14,7 +14,7 @@ CLAIMED = {
             "Static decision that crypto/rand is the only randomness reachable, read with a short-read-safe call whose error is inspected, every buffer use on the no-error edge, the error edge failing closed, no recover anywhere, and every non-constant index on generation paths a counter or a bounded draw. Covers all recipes, streams and failure positions because there is exactly one read site and the rule is over its CFG.",
             "Trusted: crypto/rand.Read/io.ReadFull contract, OS source, go/ssa model, VTA call graph. Not decided: alphabet order non-determinism from map iteration (harmless).",
             "DESIGN.md section 3 C09"),
-    "C16": ("constant/table extraction from types and the initialiser's SSA, compared with the documented values; list literals vs testdata files",
+    "C16": ("constant/table extraction from types and the initialiser's SSA, compared with the documented values; list literals vs testdata files; retry loop of exactly MaxTrials attempts; effect analysis re-run (no state carried between calls of the character recipe)",
             "Exhaustive static comparison of the finite set of documented constants, defaults, preset recipes and embedded list entries with the source; preset behaviour reduces to C01/C02/C06 for the extracted recipe.",
             "Trusted: go/constant, go/ssa lowering of composite literals. Not decided: output distribution of presets as such.",
             "DESIGN.md section 3 C16"),
@@ -22,7 +22,7 @@ CLAIMED = {
             "Partial: decides that the count is computed by an instance of a schema proven exact for every family of (possibly overlapping) required sets and every length, fed exactly the builder's sets and Length, and that the logarithm is taken by the mantissa/exponent split; the numeric equality itself and float32 rounding are not evaluated. The pinned tree's recursion (exact only for disjoint sets) was reported and repaired.",
             "Trusted: math/big, math.Log2, golang-set PowerSet/Union/Difference/Cardinality, the inclusion-exclusion lemma. Not decided: float rounding; numeric agreement for particular recipes.",
             "DESIGN.md section 3 C07"),
-    "C08": ("map-iteration-order independence rule (cross-key mutation => no carried state), additive-term ledger of Entropy() on the SSA value graph, EFF purity",
+    "C08": ("map-iteration-order independence rule (cross-key mutation => no carried state), additive-term ledger of Entropy() on the SSA value graph, EFF purity, kept-set rules of the word-list constructor re-run",
             "Static decision that nothing NewWordList stores depends on map iteration order and that WLRecipe.Entropy() is the sum of exactly the documented terms under exactly the documented conditions; holds for all lists/orders/repetitions because it is a property of the code's dataflow.",
             "Trusted: strings.Title pure, math.Log2, Go map-range semantics. Not decided: float32 rounding, numeric values.",
             "DESIGN.md section 3 C08"),
@@ -42,15 +42,15 @@ CLAIMED = {
             "Shows that no value derived from a draw can reach an output, log, panic message, error text or package variable of the library, for all recipes and streams including rejected candidates; every sink site is inventoried.",
             "Trusted: foreign functions do not stash arguments in global state; go/ssa model. Not decided: control dependence, timing, what callers do with the Password.",
             "DESIGN.md section 3 C18"),
-    "C12": ("panic-site enumeration over Tokenize's call tree + linear/parity bounds prover (Fourier-Motzkin over dominating guards and loop invariants) + CFG dominance rules for the error clauses",
+    "C12": ("panic-site enumeration over Tokenize's call tree + linear/parity bounds prover (Fourier-Motzkin over dominating guards and loop invariants) + CFG dominance rules for the error clauses; token values cut from the string itself (no rune re-encoding)",
             "Static decision of the no-panic clause and the error clauses of Tokenize for every string/index/entropy triple: each potentially panicking instruction is an obligation discharged from dominating conditions; success returns need a declared kind, a non-empty index and (full kind) an odd length.",
             "Trusted: strings.Split/Join and fmt.Errorf total; no int overflow on lengths; go/ssa model. Not decided: value-level equality of reconstructed tokens.",
             "DESIGN.md section 3 C12"),
-    "C13": ("return-pair and guard-dominance rules, context-sensitive panic-freedom of the Generate call trees (nilness facts + linear bounds prover + size summaries), counted retry loop",
+    "C13": ("return-pair and guard-dominance rules, context-sensitive panic-freedom of the Generate call trees (nilness facts + linear bounds prover + size summaries), counted retry loop, SuccessProbability shape with the counting-schema rules re-run",
             "Partial (structural clauses): error/nil discipline, guards dominate draws, bounds >= 1, no reachable panic other than the intended CSPRNG-failure panic, attempt budget. The numeric clause (SuccessProbability exact; ordinary recipes never refused) is not decided.",
             "Trusted: listed foreign functions do not panic; set interface values non-nil; no int/uint32 wrap. NOT decided: exactness of SuccessProbability; the NaN refusal for overlapping required sets is not reported.",
             "DESIGN.md section 3 C13"),
-    "C11": ("writer/reader agreement rules: unit-of-measure dataflow (bytes vs characters), kind-table and layout agreement, linear prover for the narrowing-conversion guard",
+    "C11": ("writer/reader agreement rules: unit-of-measure dataflow (bytes vs characters), kind-table and layout agreement, linear prover for the narrowing-conversion guard, decoded values cut from the string itself",
             "Static decision that encoder (MakeIndices, Kind) and decoder (Tokenize) agree on units, kind tables, per-kind layout and sizes, and that lossy conversions are guarded exactly at 255; with Split/Join inverse (trusted) this gives the round trip for all tokens of 1..255 characters, ASCII or not.",
             "Trusted: strings.Split(s,\"\")/Join inverse on character boundaries; utf8.RuneCountInString counts the same units. Not decided: value equality as such.",
             "DESIGN.md section 3 C11"),
@@ -58,7 +58,7 @@ CLAIMED = {
             "Partial (structural clauses, CLI not executed): flag-word tables, defaults, recipe wiring, exit statuses and stdout discipline decided for all command lines at once on the source. That the printed password satisfies the recipe is C03/C05 for the wired recipe.",
             "Trusted: package flag (ExitOnError => status 2), log.Fatal (stderr, status 1). Not decided: behaviour for unknown separator/class words; the binary's runtime behaviour.",
             "DESIGN.md section 3 C17"),
-    "C02": ("SSA provenance and shape rules on the generation loop: alphabet-from-set provenance, bound/collection agreement, per-position counted draw loop, whole-candidate rejection (dominance of the return by the filter), all-of filter sweep; plus a paper lemma",
+    "C02": ("SSA provenance and shape rules on the generation loop: alphabet-from-set provenance, bound/collection agreement, per-position counted draw loop, whole-candidate rejection (dominance of the return by the filter, full-length candidates, filter-only retries), all-of filter sweep, draw-schema and exclusion-dominance rules re-run; plus a paper lemma",
             "Decides the structural necessary conditions (duplicate-free alphabet, bound = len of the indexed slice, one fresh draw per position, candidates discarded entirely, filter is all-of) that with C01, C03 and the stated lemma give the uniform distribution over exactly the allowed strings. The distribution itself is not computed.",
             "Trusted: golang-set holds each element once and Iter yields it once; strings.ContainsAny; the lemma; C01. Not decided: the counting statement; invalid UTF-8.",
             "DESIGN.md section 3 C02"),
@@ -74,7 +74,7 @@ CLAIMED = {
             "Decides the token structure for all lists, lengths, schemes and separators from the shape of the assembly loop. One recorded known finding: the atom append is guarded by len(w) > 0 (empty-string word).",
             "Trusted: strings.Title, append. Known finding listed in known_findings.json.",
             "DESIGN.md section 3 C05"),
-    "C06": ("must-flow rule for Password.Entropy, additive-term ledger of Entropy() matched against the draw sites of Generate, gate predicate shape, builder agreement for the character recipe",
+    "C06": ("must-flow rule for Password.Entropy, additive-term ledger of Entropy() matched against the draw sites of Generate, gate predicate shape, builder agreement for the character recipe, draw-schema/alphabet-provenance/filter rules re-run",
             "Partial: decides that the reported entropy is the recipe's Entropy() for the recipe the draws were made for and that every entropy term is matched by the randomness actually consumed (no term without draws, same schemes on both sides, gate = all capitalisable). The probability bound itself (needs the exact distribution) is not decided.",
             "Trusted: C01/C02/C04, math.Log2. Not decided: P(password) <= 2^-Entropy as such; the required-sets count (C07).",
             "DESIGN.md section 3 C06"),
